@@ -38,6 +38,21 @@ theorem s16_of_chunks (h : ∀ k, k < 1024 → s16Chunk k = true) (P : PyNum × 
   rw [hnn, hi] at this
   exact this
 
+theorem s16int_of_chunks (h : ∀ k, k < 1024 → s16IntChunk k = true) (P : PyNum × PyNum × PyNum)
+    (hP : P ∈ s16IntParams) (i : Int) (h1 : -32768 ≤ i) (h2 : i ≤ 32767) : s16Core P i = true := by
+  let n : Nat := if i < 0 then (i + 65536).toNat else i.toNat
+  have hn : n < 65536 := by simp only [n]; split <;> omega
+  have hi : toS16 n = i := by simp only [n, toS16]; split <;> split <;> omega
+  have hk := h (n / 64) (by omega)
+  unfold s16IntChunk at hk
+  rw [List.all_eq_true] at hk
+  have := hk P hP
+  rw [List.all_eq_true] at this
+  have := this (n % 64) (List.mem_range.mpr (Nat.mod_lt _ (by decide)))
+  have hnn : 64 * (n / 64) + n % 64 = n := Nat.div_add_mod n 64
+  rw [hnn, hi] at this
+  exact this
+
 theorem f16_of_chunks (h : ∀ k, k < 256 → f16Chunk k = true) (data : Nat) (hd : data < 65536) :
     f16Core data = true := by
   have hk := h (data / 256) (by omega)
